@@ -49,11 +49,12 @@ impl Session {
         blob: Option<BlobCfg>,
         nkeys: i64,
         rules: Vec<crate::filter::Rule>,
+        share: Option<Shared>,
     ) -> Result<Self, String> {
         let _ = std::fs::remove_dir_all(&dir);
         let seq = SequenceNumberCounter::default();
         let vis = SequenceNumberCounter::default();
-        let shared = Shared::new(&phys);
+        let shared = share.unwrap_or_else(|| Shared::new(&phys));
         let filter = if rules.is_empty() {
             None
         } else {
